@@ -15,7 +15,7 @@ Require Import RV.Model.Base RV.Model.ClusterTopo RV.Model.Retry RV.Model.Cluste
 Import ListNotations.
 Open Scope Z_scope.
 
-Definition ipair := (nat * bcmd)%type.        (* cIndexes[k], commands[k] *)
+Notation ipair := (nat * bcmd)%type (only parsing).   (* cIndexes[k], commands[k] *)
 
 Record rgroup := mkRg { rg_cmds : list ipair; rg_asks : list ipair }.
 Definition rmap := list (addr * rgroup).
